@@ -78,6 +78,8 @@ class CompImpl:
         self.ms, self.core_ms = ms, core_ms
         core_ms.PROCESSING_SIGNALS.clear()
         core_ms.CURRENT_COMPUTED = None
+        if hasattr(core_ms, "EVALUATION_DEPTH"):
+            core_ms.EVALUATION_DEPTH = 0
         self.decls, self.progs = parse_header(header)
         self.kind = {(o, n): k for o, n, k in self.decls}
         owners = sorted({o for o, _, _ in self.decls})
@@ -129,8 +131,11 @@ class CompImpl:
                         _, o, n, v, nxt = t
                         try:
                             setattr(self.inst[o], f"a{n}", v)
-                        except ValueError:
-                            self.trace.append(("eval-write", c, f"{o}.{n}", v, "rejected"))
+                        except ValueError as e:
+                            # "rejected" = the cycle check of Observable.__set__; anything else was raised by what
+                            # the assignment triggered
+                            how = "rejected" if "cyclical dependency" in str(e) else "raised"
+                            self.trace.append(("eval-write", c, f"{o}.{n}", v, how))
                             raise
                         self.trace.append(("eval-write", c, f"{o}.{n}", v, "done"))
                         t = nxt
@@ -261,19 +266,49 @@ def gen_tree(R, depth, obs_keys, lower, allow_write, root=False):
 
 
 def gen_cycle_scenario(R):
-    """directed: a function that reads x, then reads another Computable that has to recompute at that very moment
-    (its input was just re-assigned), then assigns x — a cycle that must be rejected whatever happened in between"""
+    """directed: cycles that must be rejected whatever happens between the read and the assignment, and assignments
+    that are no cycles.  x = 0.0, y = 0.1 (read by the inner Computable c0), p = 0.4; c1 is the function under test:
+    * it reads x, then — in any order — assigns p (finding G10: any assignment used to clear the record of what was
+      read), reads c0 that has to recompute at that very moment, reads p; then assigns x;
+    * or it reads c0 (which evaluates now and reads y) and then assigns y: a cycle through c0;
+    * or it assigns y without any evaluating function having read it, although an EARLIER evaluation (of c0) did:
+      not a cycle, must not be rejected.
+    In 4/10 of the scenarios c0 reads y through a further Computable c2, so that the pre-check of the dirty c0 — run
+    outside any evaluation context — re-evaluates c2 in the middle of the evaluation of c1."""
     a, b, v = R.choice([0, 1, 2, 1000]), R.choice([1, 2, 1001]), R.choice([0, 1, 2])
     if a == b:
         b = 1001
     inner = ("read", 0, 1, [("ret", 0), ("ret", 1), ("ret", 2)])
-    tail = ("write", 0, 0, v, ("ret", 3))
-    outer = ("read", 0, 0, [("readc", 0, [tail, tail, tail])] * 3)
-    lines = ["scenario comp 0.0.obs,0.1.obs,0.2.comp,0.3.comp -",
-             f"assign 0 1 {a}", f"define 0 0 2 {fmt_tree(inner)}", "read 0",
-             f"assign 0 0 {R.choice([0, 1, 2])}"]
+    kind = R.choice(["direct", "direct", "direct", "through", "nocycle"])
+    if kind == "direct":
+        t = ("write", 0, 0, v, ("ret", 3))
+        for _ in range(R.choice([0, 1, 1, 2, 3])):
+            m = R.choice(["write-p", "write-p", "readc", "read-p"])
+            if m == "write-p":
+                t = ("write", 0, 4, R.choice([0, 1, 2, 1000]), t)
+            elif m == "readc":
+                t = ("readc", 0, [t, t, t])
+            else:
+                t = ("read", 0, 4, [t, t])
+        outer = ("read", 0, 0, [t] * 3)
+    elif kind == "through":
+        t = ("write", 0, 1, v, ("ret", 3))
+        if R.random() < 0.5:
+            t = ("write", 0, 4, 1, t)
+        outer = ("readc", 0, [t, t, t])
+    else:
+        t = ("write", 0, 1, v, ("ret", 3))
+        outer = ("read", 0, 0, [t, t]) if R.random() < 0.5 else t
+    lines = ["scenario comp 0.0.obs,0.1.obs,0.2.comp,0.3.comp,0.4.obs,0.5.comp -", f"assign 0 1 {a}"]
+    if R.random() < 0.4:
+        lines += [f"define 2 0 5 {fmt_tree(inner)}", f"define 0 0 2 {fmt_tree(('readc', 2, [('ret', 0), ('ret', 1), ('ret', 2)]))}"]
+    else:
+        lines.append(f"define 0 0 2 {fmt_tree(inner)}")
+    lines += ["read 0", f"assign 0 0 {R.choice([0, 1, 2])}"]
     if R.random() < 0.8:
         lines.append(f"assign 0 1 {b}")     # the inner Computable is now dirty and really changed
+    if kind == "nocycle" and R.random() < 0.7:
+        lines.append("read 0")              # … and evaluated again: its read of y is what must not be remembered
     lines.append(f"define 1 0 3 {fmt_tree(outer)}")
     for _ in range(R.randrange(0, 4)):
         lines.append(R.choice([f"assign 0 1 {gen_val(R)}", f"assign 0 0 {gen_val(R)}", "read 1", "read 0"]))
@@ -429,7 +464,8 @@ def oracle_comp(sc, obs):
     comps = {}
     writes = False
     last_reads = {}      # c -> reads of its last completed evaluation, or None after a failed one
-    stack = []           # evaluations in progress: [c, reads, keys assigned so far by this evaluation (after which read)]
+    stack = []           # evaluations in progress: [c, reads]
+    record = []          # Observables read, by whichever function, since the outermost evaluation in progress began
     hread_seen = False   # a user handler has read a Computable while being notified (the history of finding G7)
     for ev in tr:
         k = ev[0]
@@ -453,24 +489,28 @@ def oracle_comp(sc, obs):
                 if not changed:
                     bad.append(f"needless{'-after-handler-read' if hread_seen else ''}: function of {c} re-ran during `{' '.join(cur_op)}` although every value it read last time "
                                f"({last_reads[c]}) is unchanged")
-            stack.append([c, [], []])
+            stack.append([c, []])
         elif k == "eval-read":
             stack[-1][1].append((ev[2], ev[3]))
+            if not ev[2].startswith("c"):
+                record.append((ev[2], c))
         elif k == "eval-write":
             _, c, key, v, how = ev
-            reads = [r for r, _ in stack[-1][1]]
-            if how == "done" and key in reads:
-                # did this function assign ANOTHER Observable after it first read `key`?  (history of finding G10:
-                # any assignment clears the record of what was read)
-                first = reads.index(key)
-                between = [kk for kk, nreads in stack[-1][2] if kk != key and nreads > first]
-                bad.append(f"cycle-not-rejected{'-after-write' if between else ''}: function of {c} read {key} and then assigned it "
-                           f"without being rejected" + (f" (it assigned {between[0]} in between)" if between else ""))
-            if how == "done":
-                stack[-1][2].append((key, len(reads)))
+            readers = [rc for kk, rc in record if kk == key]
+            if how == "done" and readers:
+                # a Computable that is being evaluated depends on `key` — its own function read it, or the function of
+                # a Computable evaluated for it did — and the evaluation assigned it: a cycle
+                who = "read" if c in readers else f"depends (through the evaluation of Computable {readers[0]}) on"
+                bad.append(f"cycle-not-rejected: function of {c} assigned {key}, which the evaluation in progress {who} "
+                           f"(reads so far: {[kk for kk, _ in record]}), without being rejected")
+            if how == "rejected" and not readers:
+                bad.append(f"cycle-falsely-rejected: function of {c} was rejected for assigning {key}, which nothing "
+                           f"read since the outermost evaluation began (reads so far: {[kk for kk, _ in record]})")
         elif k == "eval-end":
-            c, reads, _ = stack.pop()
+            c, reads = stack.pop()
             last_reads[c] = None if ev[2] == "exc" else reads
+            if not stack:
+                record = []
         elif k == "done":
             head, store = ev[1], ev[2]
             if cur_op[0] in ("read", "define") and head.startswith("ok") and not writes:
